@@ -4,6 +4,7 @@
    coverage shows every action of the family being taken).
      SpecFused   client frames and closes are read at once (ClientFrame / Close), no admin calls
      SpecAdmin   SpecFused + Disconnect / DisconnectKey
+     SpecRegistry  registrations, closes, disconnects only (no client frames)
      SpecFaults  SpecAdmin + Stall / Unstall / BreakSink / FinishWrite
      SpecSplit   Push / Leave / ReadFrame as separate steps + admin calls
      Spec        everything (RelayServer!Next) *)
@@ -41,6 +42,13 @@ NextAdmin == \/ \E c \in Conns : Admit(c)
              \/ \E k \in Keys : DisconnectKey(k)
              \/ \E c \in Conns : Unregister(c)
              \/ \E k \in Keys, p \in Keys : NotifyGone(k, p)
+NextRegistry == \/ \E c \in Conns : Admit(c)
+                \/ \E c \in Conns : Register(c)
+                \/ \E c \in Conns : Close(c)
+                \/ \E c \in Conns : TakeMsg(c)
+                \/ \E c \in Conns : Disconnect(c)
+                \/ \E k \in Keys : DisconnectKey(k)
+                \/ \E c \in Conns : Unregister(c)
 NextFaults == \/ \E c \in Conns : Admit(c)
               \/ \E c \in Conns : Register(c)
               \/ \E c \in Conns, d \in Keys, cls \in Classes, g \in Modes : ClientFrame(c, d, cls, g)
@@ -68,6 +76,7 @@ NextSplit == \/ \E c \in Conns : Admit(c)
              \/ \E k \in Keys, p \in Keys : NotifyGone(k, p)
 SpecFused  == Init /\ [][NextFused]_vars
 SpecAdmin  == Init /\ [][NextAdmin]_vars
+SpecRegistry == Init /\ [][NextRegistry]_vars
 SpecFaults == Init /\ [][NextFaults]_vars
 SpecSplit  == Init /\ [][NextSplit]_vars
 LiveFused  == SpecFused /\ Fair
